@@ -90,6 +90,9 @@ func (bsm *blockstoreManager) getBlockSizes(ctx context.Context, ks []cid.Cid) (
 		return nil, nil
 	}
 	sizes := make([]int, len(ks))
+	for i := range sizes {
+		sizes[i] = -1 // not found; 0 is the size of a stored empty block
+	}
 
 	var count atomic.Int32
 	err := bsm.jobPerKey(ctx, ks, func(i int, c cid.Cid) {
@@ -114,7 +117,7 @@ func (bsm *blockstoreManager) getBlockSizes(ctx context.Context, ks []cid.Cid) (
 
 	res := make(map[cid.Cid]int, results)
 	for i, n := range sizes {
-		if n != 0 {
+		if n >= 0 {
 			res[ks[i]] = n
 		}
 	}
